@@ -144,7 +144,10 @@ def check_schedule_independence(rep, prog, eff, fn, call, lam_fn, role):
             if v.get('fn') != lam_fn.fref_id or v['kind'] not in ('local',):
                 continue
             decl = [d for d in lam_fn.walk() if d.k == 'VarDecl' and d.decl_id == root]
-            if decl and not lp.is_ancestor_of(decl[0]):
+            # a carried variable matters only if its value is read inside the loop by something else than its own update
+            reads = [d for d in lp.body.walk() if d.k == 'DeclRefExpr' and d.decl_id == root and not node.is_ancestor_of(d) and
+                     not any(w[0].is_ancestor_of(d) and par.access_path(w[1])[0] == root for w in eff.writes(lam_fn) if lp.body.is_ancestor_of(w[0]))]
+            if decl and not lp.is_ancestor_of(decl[0]) and reads:
                 problems.append((node, 'local `%s` is declared before the loop over the sub-range and modified inside it (`%s`): its value at index i '
                                  'depends on where the sub-range started, i.e. on how the runtime split the range' % (v['name'], node.text(40))))
     for d in lam_fn.walk():
